@@ -563,8 +563,19 @@ impl Axecutor {
         data: Vec<u8>,
         name: Option<String>,
     ) -> Result<(), AxError> {
+        let end = start.checked_add(data.len() as u64).ok_or_else(|| {
+            AxError::from(format!(
+                "cannot create memory area with start={:#x}, length={:#x}: exceeds the address space",
+                start,
+                data.len()
+            ))
+        })?;
+
         for area in &self.state.memory {
-            if start >= area.start && start < area.start + area.length {
+            // Overlap: the new start lies in an existing area, or the new area runs into / encloses one
+            if (start >= area.start && start < area.start + area.length)
+                || (area.length > 0 && start < area.start && area.start < end)
+            {
                 let overlap_name = area
                     .name
                     .to_owned()
